@@ -117,9 +117,7 @@ func (h *ConsistentHash) Get(v any) (any, bool) {
 	case 1:
 		return nodes[0], true
 	default:
-		innerIndex := h.hashFunc([]byte(innerRepr(v)))
-		pos := int(innerIndex % uint64(len(nodes)))
-		return nodes[pos], true
+		return h.pick(nodes, v), true
 	}
 }
 
@@ -136,32 +134,66 @@ func (h *ConsistentHash) Remove(node any) {
 
 	for i := 0; i < h.replicas; i++ {
 		hash := h.hashFunc([]byte(nodeRepr + strconv.Itoa(i)))
+		// the virtual node might not be ours: the node may have been added with fewer
+		// replicas, and nodeRepr+i of one node can equal nodeRepr+j of another
+		// ("a"+"10" == "a1"+"0"), so only drop the key if the node was on it.
+		if !h.removeRingNode(hash, nodeRepr) {
+			continue
+		}
+
 		index := sort.Search(len(h.keys), func(i int) bool {
 			return h.keys[i] >= hash
 		})
 		if index < len(h.keys) && h.keys[index] == hash {
 			h.keys = append(h.keys[:index], h.keys[index+1:]...)
 		}
-		h.removeRingNode(hash, nodeRepr)
 	}
 
 	h.removeNode(nodeRepr)
 }
 
-func (h *ConsistentHash) removeRingNode(hash uint64, nodeRepr string) {
-	if nodes, ok := h.ring[hash]; ok {
-		newNodes := nodes[:0]
-		for _, x := range nodes {
-			if repr(x) != nodeRepr {
-				newNodes = append(newNodes, x)
-			}
-		}
-		if len(newNodes) > 0 {
-			h.ring[hash] = newNodes
-		} else {
-			delete(h.ring, hash)
+// pick chooses one of the nodes that share a virtual node for the given v.
+// The choice depends only on v and on which nodes share the virtual node, not on the
+// order they were added in, and adding or removing a node only moves the keys of that
+// node (highest random weight, ties broken by the node representation).
+func (h *ConsistentHash) pick(nodes []any, v any) any {
+	inner := innerRepr(v)
+	var (
+		picked      any
+		pickedRepr  string
+		pickedScore uint64
+	)
+	for i, node := range nodes {
+		nodeRepr := repr(node)
+		score := h.hashFunc([]byte(inner + ":" + nodeRepr))
+		if i == 0 || score > pickedScore || score == pickedScore && nodeRepr < pickedRepr {
+			picked, pickedRepr, pickedScore = node, nodeRepr, score
 		}
 	}
+
+	return picked
+}
+
+// removeRingNode removes one occurrence of the node from the virtual node with the given hash,
+// and reports whether the node was there.
+func (h *ConsistentHash) removeRingNode(hash uint64, nodeRepr string) bool {
+	nodes, ok := h.ring[hash]
+	if !ok {
+		return false
+	}
+
+	for i, x := range nodes {
+		if repr(x) == nodeRepr {
+			if len(nodes) == 1 {
+				delete(h.ring, hash)
+			} else {
+				h.ring[hash] = append(nodes[:i], nodes[i+1:]...)
+			}
+			return true
+		}
+	}
+
+	return false
 }
 
 func (h *ConsistentHash) addNode(nodeRepr string) {
